@@ -29,7 +29,7 @@ ASSUMPTIONS = [
 
 FEAT = gen.feat(
     ann={"c": 6, "o": 1.2, "u": 1.0, "x": 0.6, "h": 0.5, "d": 0.6, "i": 0.2, "ph": 0.3, "ss": 0.3},
-    bodies={"leaf": 4, "next": 3.5, "rec": 2.0, "next2": 0.3, "rec_next": 0.8, "fnext": 0.0,
+    bodies={"next_try": 0.6, "leaf": 4, "next": 3.5, "rec": 2.0, "next2": 0.3, "rec_next": 0.8, "fnext": 0.0,
             "next_other": 0.3},
     arity=[(1, 5), (2, 2.5)], p_kw=0.08, p_optional=0.08, ncorpus=(3, 6), nmeth=(5, 9),
     p_dup_sig=0.0, p_prio=0.3, p_mixed_names=0.0, p_int_pos=0.05, p_type_pos=0.05,
